@@ -151,7 +151,7 @@ def part(prop, tier, seed, suite=None, profiles=("prel",), diff=False, all_tags=
     suite = suite or prop
     bins = {p: build_seq(p) for p in profiles}
     nsh = 64
-    cap = 900 if tier == "quick" else 4 * 3600
+    cap = 1800 if tier == "quick" else 6 * 3600
     viols = []
     total = {"histories": 0, "runs": 0, "ops": 0, "model_states": 0, "panics": 0, "units": 0, "nontrivial": 0}
     samples, per_profile, hashes = [], {}, {}
